@@ -5,6 +5,8 @@ package harness
 import (
 	"bytes"
 	"fmt"
+	quickbuilder "github.com/ipfs/go-unixfsnode/data/builder/quick"
+	"github.com/ipld/go-ipld-prime/datamodel"
 	mh "github.com/multiformats/go-multihash"
 	"io"
 	"os"
@@ -308,6 +310,46 @@ func TestC10_R_InterveningBuilds(t *testing.T) {
 	for round := range order {
 		if a, b := first[key{"plain", 10 + round}], first[key{"quick", 10 + round}]; a.root != b.root || a.size != b.size {
 			t.Fatalf("C10: plain and quick builder disagree on %d entries", 10+round)
+		}
+	}
+}
+
+// errSizeNode is a caller-implemented quickbuilder.Node whose Size() fails (the interface allows it).
+type errSizeNode struct{ l datamodel.Link }
+
+func (n errSizeNode) Link() datamodel.Link { return n.l }
+func (n errSizeNode) Size() (int64, error) { return 0, fmt.Errorf("size unknown") }
+
+// The quick builder takes its entries as a Go map: whatever it does with an entry whose Size() fails, the directory it
+// builds from the same map must be the same every time.
+func TestC10_R_QuickBuilderWithFailingSize(t *testing.T) {
+	var first cid.Cid
+	var firstSize int64
+	for run := 0; run < 80; run++ {
+		st := NewStore()
+		var got cid.Cid
+		var gsz int64
+		err := quickbuilder.Store(st.LinkSystem(), func(b *quickbuilder.Builder) error {
+			m := map[string]quickbuilder.Node{}
+			for i := 0; i < 6; i++ {
+				m[fmt.Sprintf("file-%d", i)] = b.NewBytesFile(lcgBytes(10+i*100, byte(i), 0))
+			}
+			m["unsized"] = errSizeNode{cidLink(sumRaw([]byte("somewhere else")))}
+			d := b.NewMapDirectory(m)
+			if d == nil {
+				return fmt.Errorf("NewMapDirectory returned nil")
+			}
+			got = cidOf(d.Link())
+			gsz, _ = d.Size()
+			return nil
+		})
+		if err != nil {
+			t.Fatalf("C10 quick builder: %v", err)
+		}
+		if run == 0 {
+			first, firstSize = got, gsz
+		} else if got != first || gsz != firstSize {
+			t.Fatalf("C10: the quick builder built the same map (one entry's Size() fails) as %s / %d in run %d and as %s / %d in run 0", got, gsz, run, first, firstSize)
 		}
 	}
 }
